@@ -56,6 +56,8 @@ class Session:
         self.params0 = dyn.snap_params(self.U)
         self.last_sym = None  # (kind, opts) of the last complete symbolic step on self.net
         self.prev_numeric_ic = None
+        M.engines.use(self.engines["sx"])  # a defined selection at the start of every session
+        self.selected_kind = "sx"
 
     # -- helpers --------------------------------------------------------------------------
     def init_for(self, U, op, kind):
@@ -63,6 +65,10 @@ class Session:
             vals = dyn.gen_values(op["vals"], self.uspec, self.refs, op.get("neg", False), op.get("edge", False))
             ic = dyn.numeric_init(U, vals, op.get("zero_d", False), op.get("alias"), share=U is self.U,
                                   dtype=op.get("dtype"))
+            if op.get("vctrl_scalar"):
+                for el, d in ic.items():
+                    if "v_ctrl" in d and isinstance(d["v_ctrl"], np.ndarray) and d["v_ctrl"].ndim == 1 and d["v_ctrl"].size > 1:
+                        d["v_ctrl"] = np.array(d["v_ctrl"][0])
             if U is self.U and op.get("reuse_arrays") and self.prev_numeric_ic is not None:
                 # the caller's simulation loop: the arrays supplied to the previous step are refreshed
                 # IN PLACE with the new values and handed over again (same objects, new contents)
@@ -155,14 +161,16 @@ class Session:
     # -- operations -------------------------------------------------------------------------
     def do_step(self, op, i, net=None):
         M = self.M
-        kind = op["eng"]
+        kind = op["eng"] if op.get("via") != "default" else self.selected_kind
         target = net or self.net
         eng = self.engines[kind]
         where = f"op#{i} step[{kind}]"
         ic = self.init_for(self.U, op, kind)
         before = dyn.snap_init_conditions(ic)
         if op.get("via") == "default":
-            M.engines.use(eng)
+            # the engine selected by the last `use` operation of this session (the generator knows
+            # which kind that is); nothing is re-selected here, so a library call that changed the
+            # selection behind the caller's back shows
             call = lambda: target.step(init_conditions=ic, **dyn.step_kwargs(op["opts"]))  # noqa: E731
         else:
             call = lambda: target.step(init_conditions=ic, engine=eng, **dyn.step_kwargs(op["opts"]))  # noqa: E731
@@ -360,6 +368,7 @@ class Session:
                     outcome = self.do_elem(op, i)
                 elif k == "use":
                     M.engines.use(self.engines[op["eng"]])
+                    self.selected_kind = op["eng"]
                     outcome = "ok"
                 elif k == "build":
                     # the network is extended between steps; the twin of any later step is built
@@ -419,6 +428,8 @@ def gen_step(rng, cfg, kind=None, allow_fault=True, tier="quick"):
             op["dtype"] = "float32"
         if rng.random() < 0.2:
             op["reuse_arrays"] = True
+        if rng.random() < 0.15:
+            op["vctrl_scalar"] = True  # one shared speed limit for all the VSL signs of a link
         if rng.random() < 0.1:
             op["ic_kind"] = "defaultdict"
         if op["zero_d"] is True and rng.random() < 0.25:
@@ -519,6 +530,16 @@ def generate(prop: str, run_seed: int, tier: str = "quick") -> dict:
         p = gen_step(rng, cfg, kind=rng.choice(["sx", "mx"]), allow_fault=False, tier=tier)
         p["check"] = True
         ops.append(p)
+    # default-route steps use the engine selected by the last `use` of the session
+    sel = "numpy" if cfg["numpy_only"] else "sx"
+    if cfg["numpy_only"]:
+        ops.insert(0, {"op": "use", "eng": "numpy"})
+    for j, o in enumerate(ops):
+        if o["op"] == "use":
+            sel = o["eng"]
+        elif o["op"] == "step" and o.get("via") == "default" and o["eng"] != sel:
+            keep = {k: o[k] for k in ("fault",) if k in o}
+            ops[j] = dict(gen_step(rng, cfg, kind=sel, allow_fault=False, tier=tier), via="default", **keep)
     return {"prop": prop, "run_seed": run_seed, "universe": U, "cfg": cfg, "ops": ops}
 
 
@@ -535,6 +556,8 @@ def simplify_op(op: dict):
         o = dict(op); del o["dtype"]; yield o
     if op.get("reuse_arrays"):
         o = dict(op); del o["reuse_arrays"]; yield o
+    if op.get("vctrl_scalar"):
+        o = dict(op); del o["vctrl_scalar"]; yield o
     if op.get("ic_kind"):
         o = dict(op); del o["ic_kind"]; yield o
     if op.get("zero_d") == "pyfloat":
